@@ -65,11 +65,13 @@ Inductive xout :=
 | XInvoked (a : list N) (k : kw N)         (* handler / endpoint invoked, call resolved, progress delivered, error payload *)
 | XFailed (uri : string)                   (* explicit failure with this error URI *)
 | XClass (c : N) (a : list N) (k : kw N)    (* remote error surfaced as an instance of the class registered for its URI *)
+| XHandlers (l : list (N * list N * kw N)) (* the event handlers invoked, in order: (handler number, args, kwargs) *)
 | XIgnored                                 (* event silently ignored *)
 | XNotSent.                                (* the sender raised *)
 
 Inductive leg :=
 | LPublishEvent (a b : option ringspec) (topic : string) (args : list N) (kwargs : kw N) (f : fault)
+                (detail_topic : bool) (handlers : list N)       (* EVENT names the topic?; handlers on the subscription *)
 | LCallInvocation (a b : option ringspec) (proc : string) (args : list N) (kwargs : kw N) (f : fault)
 | LYieldResult (b a : option ringspec) (proc : string) (inv_encrypted progress : bool) (args : list N) (kwargs : option (kw N)) (f : fault)
 | LError (b a : option ringspec) (error : string) (args : option (list N)) (kwargs : option (kw N)) (f : fault)
@@ -81,6 +83,8 @@ Definition xout_eqb (x y : xout) : bool :=
   | XInvoked a k, XInvoked a' k' => list_eqb N.eqb a a' && kw_eqb k k'
   | XClass c a k, XClass c' a' k' => N.eqb c c' && list_eqb N.eqb a a' && kw_eqb k k'
   | XFailed u, XFailed u' => String.eqb u u'
+  | XHandlers l, XHandlers l' =>
+      list_eqb (fun x y => N.eqb (fst (fst x)) (fst (fst y)) && list_eqb N.eqb (snd (fst x)) (snd (fst y)) && kw_eqb (snd x) (snd y)) l l'
   | XIgnored, XIgnored => true
   | XNotSent, XNotSent => true
   | _, _ => false
@@ -89,15 +93,14 @@ Definition xout_eqb (x y : xout) : bool :=
 (* returns (was the message encrypted, outcome at the receiver) *)
 Definition run_leg (l : leg) : bool * xout :=
   match l with
-  | LPublishEvent a b topic args kwargs f =>
+  | LPublishEvent a b topic args kwargs f detail hs =>
       match originate N env toyC N toy_seal toy_dumps (codec_of a) topic args kwargs 0%N with
       | SendRaises => (false, XNotSent)
       | Sent m =>
+          let u := env_uri f topic in
           (is_encrypted m,
-           match on_event N env toyC toy_open toy_loads (codec_of b) (env_uri f topic) (apply_fault f m) with
-           | HandlerInvoked x k => XInvoked x k
-           | EventIgnored _ => XIgnored
-           end)
+           XHandlers (dispatch_event N env toyC toy_open toy_loads (codec_of b) (if detail then Some u else None)
+                                     (apply_fault f m) (map (fun i => mkHandler i true u) hs)))
       end
   | LCallInvocation a b proc args kwargs f =>
       match originate N env toyC N toy_seal toy_dumps (codec_of a) proc args kwargs 0%N with
@@ -133,7 +136,7 @@ Definition run_leg (l : leg) : bool * xout :=
            | ErrEnc u => XFailed u
            | ErrPayload _ _ =>
                (* the whole _exception_from_message: decrypted payload, then registered class or generic error *)
-               match fst (exception_from_message_codec N env toyC toy_open toy_loads N (fun _ => NOTE) (run_construct kinds) reg
+               match fst (exception_from_message_codec N env toyC toy_open toy_loads N (fun _ => NOTE) (run_construct kinds) HookReturns reg
                             (codec_of a) 48%N 1%N (env_uri f error) m' (fun _ => None)) with
                | Ok e => if (c_cls e =? CLS_ApplicationError)%N then XInvoked (c_args e) (or_nil (c_kwargs e))
                          else XClass (c_cls e) (c_args e) (or_nil (c_kwargs e))
